@@ -239,12 +239,12 @@ let conv_typetable (items : sexp list) : typetable =
   let ifaces = List.filter_map (function
       | L (A "iface" :: Q p :: Q n :: ms) ->
         Some { id_pkg = cs p; id_name = cs n;
-               id_methods = List.map (function L [A "m"; Q mn; sg] -> { im_name = cs mn; im_sig = conv_sig sg } | _ -> failwith "bad imethod") ms }
+               id_methods = List.map (function L [A "m"; Q mn; sg; Q mp] -> { im_name = cs mn; im_sig = conv_sig sg; im_pkg = cs mp } | _ -> failwith "bad imethod") ms }
       | _ -> None) items in
   let tds = List.filter_map (function
       | L (A "tdecl" :: Q n :: ms) ->
         Some { td_name = cs n;
-               td_methods = List.map (function L [A "m"; Q mn; sg; v] -> { tm_name = cs mn; tm_sig = conv_sig sg; tm_value = (atom_int v = 1) } | _ -> failwith "bad tmethod") ms }
+               td_methods = List.map (function L [A "m"; Q mn; sg; v; Q mp] -> { tm_name = cs mn; tm_sig = conv_sig sg; tm_value = (atom_int v = 1); tm_pkg = cs mp } | _ -> failwith "bad tmethod") ms }
       | _ -> None) items in
   { tt_ifaces = ifaces; tt_types = tds }
 
